@@ -44,7 +44,13 @@ func VerifC06Size(nd int, kw int) {
 	mail := "MAIL FROM:<a@o.org>"
 	keyword := []string{" SIZE=", " size=", " BODY=8BITMIME Size="}[kw]
 	declared := -1
-	if nd > 0 {
+	huge := false
+	if nd == 20 {
+		// declared sizes beyond 32, 63 and 64 bits, in concrete spellings: too large for any limit
+		hs := []string{"4294967296", "9223372036854775807", "9223372036854775808", "18446744073709551615", "18446744073709551616", "99999999999999999999"}
+		mail = mail + keyword + hs[vrf.Fork(vrf.Choose("hugeSize", len(hs)))]
+		huge = true
+	} else if nd > 0 {
 		digits := vrf.Digits("size", nd)
 		mail = mail + keyword + digits
 		declared = 0
@@ -102,7 +108,10 @@ func VerifC06Size(nd int, kw int) {
 		return
 	}
 	vrf.Cover("dialogue-done")
-	if nd > 0 {
+	if huge {
+		vrf.Assert("declared-huge-size-refused", codes[2] >= 500)
+		vrf.Assert("declared-huge-size-nothing-delivered", len(first) == 0)
+	} else if nd > 0 {
 		if declared > limit {
 			vrf.CoverIf("size-refused", true)
 			vrf.Assert("declared-oversize-refused-552", codes[2] == 552)
